@@ -15,5 +15,8 @@ RECURSIVE Seqs(_, _)
 Seqs(S, n) == IF n = 0 THEN {<<>>} ELSE LET r == Seqs(S, n - 1) IN r \cup {Append(s, x) : s \in {t \in r : Len(t) = n - 1}, x \in S}
 Plain == Seqs(Segs, MaxSegs6) \ {<<>>}
 WithNoMeta == {Append(s, NoMeta(s[Len(s)])) : s \in {t \in Plain : Len(t) < MaxSegs6 + 1}}
-c_Files == {[segs |-> s, marker |-> m] : s \in Plain \cup WithNoMeta, m \in BOOLEAN}
+\* a last segment that carries metadata only (an index with zero values: no raw data, kTocRawData unset)
+MetaOnly(w) == [meta |-> TRUE, il |-> FALSE, k |-> 0, objs |-> <<O("x", 0, w)>>]
+WithMetaOnly == {Append(s, MetaOnly(w)) : s \in {t \in Plain : Len(t) < MaxSegs6 + 1}, w \in Widths}
+c_Files == {[segs |-> s, marker |-> m] : s \in Plain \cup WithNoMeta \cup WithMetaOnly, m \in BOOLEAN}
 ====
